@@ -19,7 +19,7 @@ type QueryOp struct {
 	Num   float64  `json:"num,omitempty"`
 	IDs   []string `json:"ids,omitempty"`
 	Order bool     `json:"order,omitempty"`
-	Iter  string   `json:"iter,omitempty"` // next | bytes | one | early
+	Iter  string   `json:"iter,omitempty"` // next | bytes | one | early | hold (one row fetched, iterator left open)
 }
 
 const qCols = `json_quote(id) AS id, json_quote(hex(body)) AS body, json_quote(hex(coalesce(xattrs,''))) AS xattrs`
@@ -236,6 +236,32 @@ func sameQRow(a, b qrow) bool {
 
 // runQuery executes q through the public Query API with the requested iteration style.
 func runQuery(ds sgbucket.DataStore, q QueryOp) (rows [][]byte, err error) {
+	rows, it, err := runQueryHold(ds, q)
+	if it != nil {
+		_ = it.Close()
+	}
+	return rows, err
+}
+
+// runQueryHold is runQuery; with the iteration style "hold" it fetches one row and returns the
+// still open iterator (the caller closes it later).
+func runQueryHold(ds sgbucket.DataStore, q QueryOp) (rows [][]byte, held sgbucket.QueryResultIterator, err error) {
+	if q.Iter != "hold" {
+		rows, err = runQuery1(ds, q)
+		return rows, nil, err
+	}
+	stmt, args := q.SQL()
+	it, err := ds.(sgbucket.QueryableStore).Query(sgbucket.SQLiteLanguage, stmt, args, sgbucket.RequestPlus, false)
+	if err != nil {
+		return nil, nil, err
+	}
+	if b := it.NextBytes(); b != nil {
+		rows = append(rows, append([]byte(nil), b...))
+	}
+	return rows, it, nil
+}
+
+func runQuery1(ds sgbucket.DataStore, q QueryOp) (rows [][]byte, err error) {
 	stmt, args := q.SQL()
 	it, err := ds.(sgbucket.QueryableStore).Query(sgbucket.SQLiteLanguage, stmt, args, sgbucket.RequestPlus, false)
 	if err != nil {
@@ -279,6 +305,18 @@ func runQuery(ds sgbucket.DataStore, q QueryOp) (rows [][]byte, err error) {
 
 func init() {
 	pseudoHandlers["Query"] = func(r *Run, op Op) { r.QueryStep(op) }
+	pseudoHandlers["CloseIters"] = func(r *Run, op Op) {
+		r.closeIters()
+		r.Trace = append(r.Trace, StepTrace{Op: op, Outcome: "iterators-closed"})
+	}
+}
+
+// closeIters closes the query iterators a "hold" query left open.
+func (r *Run) closeIters() {
+	for _, it := range r.heldIters {
+		_ = it.Close()
+	}
+	r.heldIters = nil
 }
 
 // QueryStep runs the query and compares it with the twin.
@@ -294,10 +332,17 @@ func (r *Run) QueryStep(op Op) {
 			tr.Outcome = "DEVIATION"
 		}
 	}()
-	raw, err := runQuery(w.Coll(op.H, op.C), q)
+	if q.Iter == "hold" && len(r.heldIters) >= 2 {
+		q.Iter = "early" // (a few open iterators at most: each holds a pooled connection)
+	}
+	raw, held, err := runQueryHold(w.Coll(op.H, op.C), q)
 	if err != nil {
 		r.dev("query.err", c19, "query %s failed: %v", q.Kind, err)
 		return
+	}
+	if held != nil {
+		// stays open while the history goes on: later queries must still see the current documents
+		r.heldIters = append(r.heldIters, held)
 	}
 	want := expectedQueryRows(r, op.C, q)
 	// sentinel / checkpoint documents written by the harness itself are not part of the model
@@ -329,7 +374,7 @@ func (r *Run) QueryStep(op Op) {
 	}
 	tr.Prior = fmt.Sprintf("rows=%d", len(want))
 	switch q.Iter {
-	case "one", "early":
+	case "one", "early", "hold":
 		// at most one row, which must be one of the expected rows (the first if ordered)
 		if len(got) > 1 {
 			r.dev("query.one", c19, "%s iteration returned %d rows", q.Iter, len(got))
@@ -397,7 +442,7 @@ func genQuery(rt *rapid.T, r *Run) (Op, bool) {
 		q.Num = float64(rapid.IntRange(0, 9).Draw(rt, "q.seq"))
 	}
 	q.Order = chance(rt, 50, "q.order")
-	q.Iter = pick(rt, []string{"bytes", "bytes", "next", "one", "early"}, "q.iter")
+	q.Iter = pick(rt, []string{"bytes", "bytes", "next", "one", "early", "hold"}, "q.iter")
 	if q.Kind == "count" {
 		q.Iter = pick(rt, []string{"bytes", "next"}, "q.citer")
 	}
